@@ -63,6 +63,13 @@ type Op struct {
 	InvokeT   time.Duration
 	ReturnT   time.Duration
 	CancelT   time.Duration // when the scheduler cancelled it (cancel kind), -1 otherwise
+	// CancelAtYield > 0: the context is cancelled by the yield hook at the k-th yield point any
+	// library goroutine passes after the operation started, i.e. at an arbitrary instant inside the
+	// call instead of at a quiescence point
+	CancelAtYield int
+	yieldLeft     int
+	yCancelled    bool
+	yCancelT      time.Duration
 	done      bool
 	Res       any
 	Err       error
@@ -123,6 +130,8 @@ type Sim struct {
 
 	memberClock int64 // order of writes accepted by scripted members (under mu)
 
+	yieldMu      sync.Mutex
+	armed        []*Op
 	yieldSeed    uint64
 	yieldDensity int // per 1000
 	yieldCount   map[int]int
@@ -226,6 +235,10 @@ func (s *Sim) runOp(op *Op) {
 				pan = fmt.Sprintf("%v\n%s", r, debug.Stack())
 			}
 		}()
+		if op.CancelAtYield > 0 {
+			s.armYieldCancel(op)
+			defer s.disarmYieldCancel(op)
+		}
 		res, err = op.Run(op.ctx)
 	}()
 	s.mu.Lock()
@@ -233,6 +246,52 @@ func (s *Sim) runOp(op *Op) {
 	op.ReturnT = time.Since(s.start)
 	op.done = true
 	s.mu.Unlock()
+}
+
+func (s *Sim) armYieldCancel(op *Op) {
+	s.yieldMu.Lock()
+	op.yieldLeft = op.CancelAtYield
+	s.armed = append(s.armed, op)
+	s.yieldMu.Unlock()
+}
+
+func (s *Sim) disarmYieldCancel(op *Op) {
+	s.yieldMu.Lock()
+	for i, o := range s.armed {
+		if o == op {
+			s.armed = append(s.armed[:i:i], s.armed[i+1:]...)
+			break
+		}
+	}
+	s.yieldMu.Unlock()
+}
+
+// yieldTick is called by the yield hook at every yield point (any goroutine).
+func (s *Sim) yieldTick() {
+	s.yieldMu.Lock()
+	if len(s.armed) == 0 {
+		s.yieldMu.Unlock()
+		return
+	}
+	var fire []*Op
+	keep := s.armed[:0:0]
+	for _, op := range s.armed {
+		op.yieldLeft--
+		if op.yieldLeft <= 0 {
+			fire = append(fire, op)
+		} else {
+			keep = append(keep, op)
+		}
+	}
+	s.armed = keep
+	s.yieldMu.Unlock()
+	for _, op := range fire {
+		s.mu.Lock()
+		op.yCancelled, op.yCancelT = true, time.Since(s.start)
+		s.mu.Unlock()
+		s.AsyncLogf("cancel op%d at yield point", op.ID)
+		op.cancel()
+	}
 }
 
 // Idle reports whether task i can take a new operation.
@@ -304,6 +363,10 @@ func (s *Sim) Harvest() {
 		}
 		s.mu.Lock()
 		done := op.done
+		if op.yCancelled && op.CancelT < 0 {
+			op.CancelT = op.yCancelT
+			s.stats["env.cancel-at-yield-point"]++
+		}
 		s.mu.Unlock()
 		if !done {
 			continue
